@@ -57,7 +57,105 @@ def check(repo: Repo) -> Result:
 
     r7 = res.rule("C20-R7", "a unit read back from its text has the identical hash: Unit.__hash__ is a function of the registry's current contents id and the expression only - never a value remembered from an earlier registry state (shared with C05-R2)", floor=1)
     share(res, r7, "C05", lambda t: t.__dict__.update(c05.check(repo).__dict__), ["C05-R2"], want=lambda k: k == "hash-footprint")
+    printer_reads_current_state(repo, res)
+    text_goes_through_parser(repo, res)
     return res
+
+
+def text_goes_through_parser(repo, res):
+    """One text, one expression: the parser's rewrite chain is what makes 'um', '\u00b5m' and '\u03bcm' the same symbol and
+    what gives every spelling its canonical form.  A text that reaches the expression by another route (Symbol(text) for
+    strings that happen to be table keys, say) yields an expression the printer's output does not read back as."""
+    from engine.flow import enum_paths
+
+    r9 = res.rule("C20-R9", "every text handed to Unit() becomes an expression through parse_unyt_expr on every path that is not answered from the unit-string cache: no shortcut builds the expression from the raw text", floor=1)
+    new = repo.mod(UO).func("Unit.__new__")
+    res.fn(new)
+    xp = new.params[1]
+    arm = None
+    for n in ast.walk(new.node):
+        if isinstance(n, ast.If) and f"isinstance({xp}, (str, bytes))" in norm(n.test).replace("(bytes, str)", "(str, bytes)"):
+            arm = n
+            break
+    if arm is None:
+        raise AnalysisError(f"{new.where()}: the text arm of Unit.__new__ was not found")
+    bad, n_paths = [], 0
+    for p in enum_paths(arm.body):
+        if p[-1][0] in ("raise", "return"):
+            continue
+        n_paths += 1
+        last = None
+        for ev in p:
+            if ev[0] == "stmt" and isinstance(ev[1], ast.Assign) and any(norm(t) == xp for t in ev[1].targets):
+                last = ev[1]
+        if last is None or not (isinstance(last.value, ast.Call) and norm(last.value.func).split(".")[-1] == "parse_unyt_expr"):
+            bad.append(norm(last) if last is not None else "no binding")
+    if n_paths == 0:
+        raise AnalysisError(f"{new.where(arm)}: no path through the text arm")
+    res.check(not bad, "text-arm:parser-on-every-path", new.where(arm), "Unit.__new__ turns a text into an expression without the parser on some path: the canonicalising rewrites (micro sign, degree sign, Delta spellings, aliases) are skipped, so the same text no longer denotes the same expression as its printed form", f"{xp} = parse_unyt_expr({xp}) last on every path", sorted(set(bad))[:3], rid=r9)
+
+
+def printer_reads_current_state(repo, res):
+    """Unit.simplify (and any other method that re-binds self.expr) changes a unit in place, so text that was printed
+    earlier is no longer the unit's text.  The printer therefore reads the expression itself; if it reads an instance
+    attribute that methods fill in lazily (a memo of the text), every method that re-binds the expression must reset
+    that attribute as well - otherwise str(u) names the expression u had when it was first printed, which reads back
+    as another unit (different expression and hash)."""
+    r8 = res.rule("C20-R8", "str / repr of a unit are computed from its current expression: an instance attribute the printer reads that is filled in outside __new__ (a memo of the text) is reset by every method that re-binds the expression", floor=1)
+    uo = repo.mod(UO)
+    meths = {q.split(".", 1)[1]: fns[0] for q, fns in uo.funcs.items() if q.startswith("Unit.") and q.count(".") == 1}
+    if "__str__" not in meths or "__repr__" not in meths:
+        raise AnalysisError(f"{UO}: Unit.__str__ / __repr__ not found")
+
+    def attr_writes(f):
+        me = f.params[0] if f.params else "self"
+        out = set()
+        for n in walk_no_nested(f.node):
+            tgts = n.targets if isinstance(n, ast.Assign) else ([n.target] if isinstance(n, (ast.AugAssign, ast.AnnAssign)) else [])
+            for t in tgts:
+                for x in ast.walk(t):
+                    if isinstance(x, ast.Attribute) and isinstance(x.value, ast.Name) and x.value.id == me and isinstance(x.ctx, ast.Store):
+                        out.add(x.attr)
+        return out
+
+    closure, todo = set(), ["__str__", "__repr__"]
+    while todo:
+        m = todo.pop()
+        if m in closure or m not in meths:
+            continue
+        closure.add(m)
+        f = meths[m]
+        me = f.params[0] if f.params else "self"
+        for n in walk_no_nested(f.node):
+            if isinstance(n, ast.Attribute) and isinstance(n.value, ast.Name) and n.value.id == me and n.attr in meths:
+                todo.append(n.attr)
+    reads = set()
+    for m in closure:
+        f = meths[m]
+        res.fn(f)
+        me = f.params[0] if f.params else "self"
+        for n in walk_no_nested(f.node):
+            if isinstance(n, ast.Attribute) and isinstance(n.value, ast.Name) and n.value.id == me and isinstance(n.ctx, ast.Load) and n.attr not in meths:
+                reads.add(n.attr)
+    if "expr" not in reads:
+        raise AnalysisError(f"{UO}: the printer of Unit no longer reads self.expr")
+    writers = {}
+    for m, f in meths.items():
+        if m == "__new__":
+            continue
+        for a_ in attr_writes(f):
+            writers.setdefault(a_, set()).add(m)
+    n_ob = 0
+    for a_ in sorted(reads - {"expr"}):
+        lazy = writers.get(a_, set())
+        if not lazy:
+            continue  # set once at construction
+        for w in sorted(writers.get("expr", set())):
+            n_ob += 1
+            ok = a_ in attr_writes(meths[w])
+            res.check(ok, f"printer:{a_}:reset-by:{w}", meths[w].where(), f"Unit.{w} re-binds self.expr but leaves self.{a_} as it is, and the printer ({', '.join(sorted(closure))}) answers from self.{a_} (filled in by {sorted(lazy)}): a unit printed once keeps printing the expression it had then - str(u) after u.{w}() reads back as a different unit", f"self.{a_} reset wherever self.expr is re-bound", sorted(attr_writes(meths[w])), rid=r8)
+    if n_ob == 0:
+        res.ok("printer-reads-current-expression", r8)
 
 
 def vocabulary(repo, res):
@@ -455,6 +553,8 @@ def persistence(repo, res):
 
 
 MUTANTS = [
+    Mutant("printer-answers-from-memo", UO, "Unit.__str__", "        unit_str = self.expr.__str__()\n", "        if self._latex_repr is None:\n            self._latex_repr = self.expr.__str__()\n        unit_str = self._latex_repr\n", ("C20-R8",)),
+    Mutant("table-keys-skip-parser", UO, "Unit.__new__", "            unit_expr = parse_unyt_expr(unit_expr)\n", "            if registry and unit_expr in registry.lut:\n                unit_expr = Symbol(unit_expr, positive=True)\n            else:\n                unit_expr = parse_unyt_expr(unit_expr)\n", ("C20-R9",)),
     Mutant("vocab-extended", PAR, None, '    "sqrt": sqrt,\n}', '    "sqrt": sqrt,\n    "eval": eval,\n}', ("C20-R1",)),
     Mutant("transform-dropped", PAR, None, "unit_text_transform = (_auto_positive_symbol, auto_number, rationalize)", "unit_text_transform = (auto_number, rationalize)", ("C20-R1",)),
     Mutant("names-pass-through", PAR, "_auto_positive_symbol", "                if isinstance(obj, (Basic, type)) or callable(obj):\n", "                if True:\n", ("C20-R1",)),
